@@ -15,8 +15,8 @@ import (
 
 func init() { Registry["C06"] = C06 }
 
-var c06Lines = []string{"ab", "cd", "xa", "yb", "xaya", "{{d}}x", "##! xa", "", "baa", "\f", " \u00a0"}
-var c06Words = []string{"ab", "cd", "xa", "yb", "xaya", "{{d}}x", "yx", "zz"}
+var c06Lines = []string{"ab", "cd", "xa", "yb", "xaya", "{{d}}x", "##! xa", "", "baa", "\f", " \u00a0", "#xa"}
+var c06Words = []string{"ab", "cd", "xa", "yb", "xaya", "{{d}}x", "yx", "zz", "#xa"}
 var c06Pairs = [][][2]string{
 	nil,
 	{{"a", "b"}},
@@ -41,6 +41,10 @@ func (c c06Case) files() (f string, xs []string) {
 	f = strings.Join(c.F, "\n") + "\n"
 	if strings.Contains(f, "{{d}}") {
 		f = "##!> define d y\n" + f
+	}
+	if strings.Contains(f, "{{o}}") {
+		// a chain of three definitions, innermost first, then outermost, then the middle one
+		f = "##!> define u z\n##!> define o {{m}}x\n##!> define m {{u}}y\n" + f
 	}
 	for _, x := range c.X {
 		xs = append(xs, strings.Join(x, "\n")+"\n")
@@ -191,6 +195,14 @@ func c06Cases(maxF int, thorough bool) []c06Case {
 		for _, x := range [][][]string{nil, {{}}, {{"cd"}}, {{"axe"}, {"zz"}}} {
 			for _, p := range [][][2]string{{{"e", "z"}}, {{">", "q"}}, {{"<", "q"}, {"e", `""`}}} {
 				out = append(out, c06Case{F: f, X: x, Pairs: p, Plain: x == nil})
+			}
+		}
+	}
+	// a chain of three definitions in the include file (see files()): the exclude file is read with the same definitions
+	for _, f := range [][]string{{"{{o}}1"}, {"{{o}}1", "ab"}, {"cd", "{{o}}1", "{{o}}2"}} {
+		for _, x := range [][][]string{{{"{{o}}1"}}, {{"zz"}}, {{"ab"}, {"{{o}}1"}}, {{"zyx1"}}} {
+			for _, p := range [][][2]string{nil, {{"1", "9"}}} {
+				out = append(out, c06Case{F: f, X: x, Pairs: p})
 			}
 		}
 	}
